@@ -124,8 +124,10 @@ structure Cfg (σ : Type) where
   mainLimit : Nat
   /-- `UnpinStrategy::Poll` (otherwise `Notify`) -/
   poll : Bool
-  /-- repaired `Policy::unpin` (finding F4); `false` = the code as it is -/
+  /-- repaired `Policy::unpin` (finding F4, fixed in /repo); `false` = the code before the fix -/
   fixF4 : Bool
+  /-- proposed repair of finding F15: the Poll trim visits the whole pinned region; `false` = the code as it is -/
+  fixTrim : Bool := false
   /-- `MAINTENANCE_BATCH_SIZE` -/
   batch : Nat
   /-- capacity of the read-buffer shard of the calling thread -/
@@ -148,6 +150,8 @@ structure Cache (σ : Type) where
   wbuf : List WMsg := []
   rbuf : List Nat := []
   pins : List Nat := []
+  /-- GHOST (read by no operation): the tokens released since the last maintenance round -/
+  rel : List Nat := []
 
 /-- `remove_closure` of `tiny_lfu.rs`. -/
 def removeClosure {σ} (cfg : Cfg σ) (pins : List Nat) (c : Core σ) (k : Nat) : Core σ × Bool :=
@@ -230,8 +234,17 @@ def trimLoop {σ} (cfg : Cfg σ) (pins : List Nat) : List Nat → Core σ → Li
     let r := removeClosure cfg pins c k
     if r.2 then trimLoop cfg pins rest r.1 else (rest ++ [k], r.1)
 
+/-- Proposed repair of finding F15 (fixes/F15-poll-trim-scan.diff): every entry of the pinned region is
+visited once; removed ones are popped, kept ones rotate to the head (so they keep their order). -/
+def trimScan {σ} (cfg : Cfg σ) (pins : List Nat) : List Nat → Core σ → List Nat × Core σ
+  | [], c => ([], c)
+  | k :: rest, c =>
+    let r := removeClosure cfg pins c k
+    if r.2 then trimScan cfg pins rest r.1
+    else ((k :: (trimScan cfg pins rest r.1).1), (trimScan cfg pins rest r.1).2)
+
 def trim {σ} (cfg : Cfg σ) (pins : List Nat) (c : Core σ) : Core σ :=
-  let r := trimLoop cfg pins c.lru.pinned c
+  let r := if cfg.fixTrim then trimScan cfg pins c.lru.pinned c else trimLoop cfg pins c.lru.pinned c
   { r.2 with lru := { r.2.lru with pinned := r.1 } }
 
 /-- `TinyLFUInner::process_write`. -/
@@ -258,7 +271,7 @@ def processPolicyMessages {σ} (cfg : Cfg σ) (c : Cache σ) : Except Panic (Cac
   | .ok core =>
     let core := processReads cfg c.rbuf core
     let core := if cfg.poll then trim cfg c.pins core else core
-    .ok { c with core := core, wbuf := [], rbuf := [] }
+    .ok { c with core := core, wbuf := [], rbuf := [], rel := [] }
 
 /-- The tail of `TinyLFU::try_maintenance` (after the message has been buffered). -/
 def tryMaintenance {σ} (cfg : Cfg σ) (c : Cache σ) : Except Panic (Cache σ) :=
@@ -330,8 +343,8 @@ def access {σ} (cfg : Cfg σ) (c : Cache σ) : Op → Cache σ × Ret × Bool
     | some w => (c, .some w, true)
     | none => (c, .none, true)
   | .pin t => ({ c with pins := t :: c.pins }, .unit, false)
-  | .unpin t => ({ c with pins := c.pins.erase t }, .unit, false)
-  | .unpinNotify k => ({ c with pins := c.pins.erase k, wbuf := c.wbuf ++ [.unpinned k] }, .unit, true)
+  | .unpin t => ({ c with pins := c.pins.erase t, rel := t :: c.rel }, .unit, false)
+  | .unpinNotify k => ({ c with pins := c.pins.erase k, rel := k :: c.rel, wbuf := c.wbuf ++ [.unpinned k] }, .unit, true)
   | .notify k => ({ c with wbuf := c.wbuf ++ [.unpinned k] }, .unit, true)
 
 /-- the cache with an empty removal-closure log (the log is per call) -/
